@@ -885,9 +885,6 @@ def optOk {γ : Type} [DecidableEq γ] (crit : Option γ) (val : γ) : Bool :=
   | none => true
   | some c => decide (val = c)
 
-theorem optMatch_all {γ : Type} [DecidableEq γ] (crit : Option γ) (val : γ) : (optMatch crit val).all id = optOk crit val := by
-  cases crit <;> simp [optMatch, optOk]
-
 /-- declarative meaning of the search criteria -/
 def matchesSpec (g : GroupInfo) (f : Filter) : Bool :=
   optOk f.category g.category && optOk f.ptype g.ptype && optOk f.label g.label && optOk f.gtype g.gtype &&
@@ -896,26 +893,42 @@ def matchesSpec (g : GroupInfo) (f : Filter) : Bool :=
    | some (name, version, family) => optOk f.algName name && optOk f.algVersion version && optOk f.algFamily family
    | none => f.algName.isNone && f.algVersion.isNone && f.algFamily.isNone)
 
-theorem all_or_isEmpty (l : List Bool) : (l.all id || l.isEmpty) = l.all id := by
-  cases l <;> simp
+/-- the translated loop body, as a formula -/
+theorem groupFilterDecision_spec (h1 e1 h2 e2 h3 e3 h4 e4 h5 e5 hn en hf ef hv ev ha : Bool) :
+    groupFilterDecision h1 e1 h2 e2 h3 e3 h4 e4 h5 e5 hn en hf ef hv ev ha =
+      .ok ((!h1 || e1) && (!h2 || e2) && (!h3 || e3) && (!h4 || e4) && (!h5 || e5) &&
+           (if ha then (!hn || en) && (!hv || ev) && (!hf || ef) else !(hn || hv || hf))) := by
+  unfold groupFilterDecision
+  cases h1 <;> cases h2 <;> cases h3 <;> cases h4 <;> cases h5 <;> cases ha <;> cases hn <;> cases hv <;> cases hf <;>
+    simp [Bool.and_assoc]
 
-theorem matchList_spec (g : GroupInfo) (f : Filter) :
-    ((matchList g f).all id || (matchList g f).isEmpty) = matchesSpec g f := by
-  rw [all_or_isEmpty]
-  unfold matchList matchesSpec
-  simp only [List.all_append, optMatch_all]
+theorem optOk_flags {γ : Type} [DecidableEq γ] (crit : Option γ) (val : γ) :
+    (!crit.isSome || decide (crit = some val)) = optOk crit val := by
+  cases crit with
+  | none => simp [optOk]
+  | some c => simp [optOk, eq_comm]
+
+theorem selected_spec (g : GroupInfo) (f : Filter) : selected g f = .ok (matchesSpec g f) := by
+  unfold selected matchesSpec
+  rw [groupFilterDecision_spec]
+  simp only [optOk_flags]
   cases hg : g.alg with
   | none =>
     cases f.algName <;> cases f.algVersion <;> cases f.algFamily <;> simp
   | some a =>
     obtain ⟨name, version, family⟩ := a
-    simp only [List.all_append, optMatch_all, Bool.and_assoc]
+    simp only [Option.isSome_some, if_true, optOk_flags]
 
-theorem getGroups_spec (gs : List GroupInfo) (f : Filter) : getGroups gs f = gs.filter (fun g => matchesSpec g f) := by
+theorem filterE_ok {β : Type} (p : β → Except ErrKind Bool) (q : β → Bool) (l : List β) (h : ∀ x, p x = .ok (q x)) :
+    filterE p l = .ok (l.filter q) := by
+  induction l with
+  | nil => rfl
+  | cons a as ih =>
+    simp only [filterE, h a, ih, List.filter_cons]
+
+theorem getGroups_spec (gs : List GroupInfo) (f : Filter) : getGroups gs f = .ok (gs.filter (fun g => matchesSpec g f)) := by
   unfold getGroups
-  congr 1
-  funext g
-  exact matchList_spec g f
+  exact filterE_ok _ _ gs (fun g => selected_spec g f)
 
 theorem groupLookupDecision_spec (number uid : Option Int) (n : Int) :
     groupLookupDecision number uid n =
